@@ -1469,5 +1469,18 @@ Proof.
                   destruct (ms_reset_all _ _); inversion Ec; reflexivity);
             unfold INVP in IP1; rewrite Pd in IP1;
             apply open_session_OK; [exact IA1|exact IP1|exact Eo]).
+  all: try (intros H; injection H as <- <-; apply OKR_nil; eapply INV_same; [| |exact I0]; reflexivity).
+  1: { destruct (ms_close_session st MsELink) as [st1 o1] eqn:Ec.
+            destruct (ms_open_session st1) as [st2 o2] eqn:Eo.
+            intros H; injection H as <- <-.
+            pose proof (close_session_OK _ _ _ _ _ I0 Hns Ec) as O1.
+            eapply OKR_seq; [exact O1|].
+            destruct O1 as [[IA1 IP1] _].
+            assert (Pd : ms_m_phase st1 = MsPDown).
+              { unfold ms_close_session in Ec; destruct (ms_fail_running st MsELink);
+                  destruct (ms_reset_all _ _); inversion Ec; reflexivity. }
+            unfold INVP in IP1; rewrite Pd in IP1.
+            Show.
+            apply open_session_OK; [exact IA1|exact IP1|exact Eo]. }
   Show.
 Admitted.
